@@ -10,7 +10,13 @@
    with one shape-correct but absurd argument each, chunk 500 complete modules that
    break (or just keep) a rule relating two statements, chunks 601.. characters that
    alias structural ASCII characters or are blanks to Unicode only, in every lexer
-   state, chunk 700 texts starting with a byte order mark.                             *)
+   state, chunk 700 texts starting with a byte order mark, chunk 800 an early error (or none)
+   followed by long runs of tokens that cover few or no bytes; the texts of chunks 100, 200,
+   400 and 500 go once through parse.Parse and once more through another way into the parser.
+
+   Every vector names the way into the parser it is to be handed to (entry; `first`: the text a
+   Tree has parsed before, for a second Parse on the same Tree).  What C07 asks is asked of the
+   call, whatever the entry: the geometry is that of the text of this call.                 *)
 EXTENDS YangLexer, Json, SequencesExt, FiniteSets, TLC
 CONSTANTS Alphabet, MaxLen, Variants, NRand, RandLen, InFile, NCatTexts, NCat, AliasWide
 VARIABLES chunk, done
@@ -50,7 +56,7 @@ EndAt(L, t) == LET M == LStep(L, t, AsPinned) IN
 Vec(t, v) == LET u == Respell(t, v)  items == LexAll(u, Intended)  e == EndAt(L0, u) IN
   [text |-> u, variant |-> v, lines |-> LineLens(u), bytes |-> SumWidth(u, 1, Len(u)),
    nitems |-> Len(items), lastItem |-> IF items = << >> THEN "none" ELSE items[Len(items)].typ,
-   endsIn |-> e.fn, inBlock |-> e.depth > 0]
+   endsIn |-> e.fn, inBlock |-> e.depth > 0, entry |-> "Parse", first |-> << >>]
 \* chunk 300: NCatTexts modules of NCat statements each, every argument a different concatenation of quoted strings
 \* (the parser joins the pieces while the lexer goroutine is already one token ahead).  Only the geometry is computed.
 RECURSIVE Dec(_)
@@ -65,7 +71,7 @@ CatBody(i, a, b) == IF a = b THEN Piece(CatStmt(i, a))
                     ELSE LET m == (a + b) \div 2 IN Join2(CatBody(i, a, m), CatBody(i, m + 1, b))
 CatText(i) == Join2(Join2(Piece(S2C("module m {") \o <<LF>> \o S2C("  namespace \"urn:m\";") \o <<LF>> \o S2C("  prefix m;") \o <<LF>>),
                           CatBody(i, 1, NCat)), Piece(S2C("}") \o <<LF>>))
-LightVec(p) == [text |-> p.text, variant |-> 1, lines |-> Append(p.lines, 0), bytes |-> p.bytes, nitems |-> 0, lastItem |-> "n/a", endsIn |-> "n/a", inBlock |-> FALSE]
+LightVec(p) == [text |-> p.text, variant |-> 1, lines |-> Append(p.lines, 0), bytes |-> p.bytes, nitems |-> 0, lastItem |-> "n/a", endsIn |-> "n/a", inBlock |-> FALSE, entry |-> "Parse", first |-> << >>]
 \* chunk 400: totality reaches the argument validators.  Complete, otherwise valid modules in which one argument with inner
 \* structure (dates, ranges, lengths, integers, booleans, enumerated keywords, node identifiers and paths, key lists,
 \* patterns, versions, URIs, prefixes) is shape-correct or nearly so but absurd in value.  Only the geometry is computed;
@@ -112,8 +118,22 @@ Absurd == << "", "0", "00", "13", "99", "0000", "-0", "-1", "+5", "007", "0x10",
              "[", "]", "(", ")", "[a", "a[b=", "(a|", "*", "+", "?", "{", "a{2,1}", "[z-a]", ".", "..", "1.1", "1", "2", "1.0", "xml", "XMLa", "-a", "9a",
              "a.b-c_d", "urn:", "http://", "x y z" >>
 HoleText(h, v) == HoleHead \o S2C(h[1]) \o S2C(v) \o S2C(h[2]) \o <<LF>> \o S2C("}") \o <<LF>>
-PlainLight(t) == [text |-> t, variant |-> 1, lines |-> LineLens(t), bytes |-> SumWidth(t, 1, Len(t)), nitems |-> 0, lastItem |-> "n/a", endsIn |-> "n/a", inBlock |-> FALSE]
-AbsurdCases(u_) == {PlainLight(HoleText(Holes[i], Absurd[j])) : i \in 1..Len(Holes), j \in 1..Len(Absurd)}
+PlainLight(t) == [text |-> t, variant |-> 1, lines |-> LineLens(t), bytes |-> SumWidth(t, 1, Len(t)), nitems |-> 0, lastItem |-> "n/a", endsIn |-> "n/a", inBlock |-> FALSE,
+                  entry |-> "Parse", first |-> << >>]
+\* ---- the ways into the parser.  The package exports parse.Parse and ParseWithInterners, the two-step form
+\* New(name, cardinality).Parse(text) / NewWithInterners(...).Parse(text), and Parse may be called again on a Tree that has
+\* parsed another text before (entry "Reparse", the earlier text in `first`: a valid module, a text with a syntax error,
+\* the empty text, a module that breaks a rule between statements, a short module after many empty lines - shorter and
+\* longer, with fewer and more lines than the text under test).  ViaOther(v, k): the vector v through the k-th other entry.
+OtherEntries == <<"ParseWithInterners", "New.Parse", "NewWithInterners.Parse", "Reparse">>
+AllEntries == <<"Parse">> \o OtherEntries
+FirstTexts == << HoleText(Holes[1], "2020-01-01"), S2C("a b c"), << >>, HoleText(Holes[5], "5..1"),
+                 [i \in 1..14 |-> LF] \o S2C("module x { namespace \"urn:x\"; prefix x; }"), S2C("module x { typedef a { type string; } typedef a { type string; } }") >>
+Via(v, e, k) == [v EXCEPT !.entry = e, !.first = IF e = "Reparse" THEN FirstTexts[1 + (k % Len(FirstTexts))] ELSE << >>]
+ViaOther(v, k) == Via(v, OtherEntries[1 + (k % 4)], k \div 4)
+ViaAny(v, k) == Via(v, AllEntries[1 + (k % 5)], k \div 5)
+\* (every absurd argument once through parse.Parse and once through another entry, so that every hole meets every entry)
+AbsurdCases(u_) == UNION {LET v == PlainLight(HoleText(Holes[i], Absurd[j])) IN {v, ViaOther(v, i + j)} : i \in 1..Len(Holes), j \in 1..Len(Absurd)}
 \* chunks 601..: one of the characters that are ordinary to YANG although a careless program may take them for structure
 \* (YangChars!AliasesAt: low 7 / 8 / 16 bits equal to a separator, quote, brace, semicolon, plus, slash, star or backslash, in
 \* every UTF-8 width and plane; UniBlanks: white space to Unicode only), in every lexer state: at the start of a statement,
@@ -170,24 +190,48 @@ NamePairs == {<<"a", "a">>, <<"a", "b">>, <<"string", "string">>, <<"string", "a
 ScopeKinds == {<<"typedef", "typedef">>, <<"grouping", "grouping">>, <<"typedef", "grouping">>, <<"grouping", "typedef">>}
 OtherKinds == {<<"leaf", "leaf">>, <<"container", "leaf">>, <<"identity", "identity">>, <<"feature", "feature">>, <<"extension", "extension">>, <<"leaf", "typedef">>}
 RevDates == <<"2020-01-01", "2021-06-30", "2019-12-31">>
+\* (each text through parse.Parse and through one of the other entries: a rule between statements is checked after the last
+\* token, where the position of the offending statement has to be found in the text of this call)
+Both(v, k) == {v, ViaOther(v, k)}
 CrossCases(u_) ==
-  {TwoDefs(i, DefOf(k[1], n[1]), j, DefOf(k[2], n[2])) : i \in 1..NSlot, j \in 1..NSlot, k \in ScopeKinds, n \in NamePairs}
-  \cup {TwoDefs(i, DefOf(k[1], n[1]), j, DefOf(k[2], n[2])) : i \in {1, 2, 3, 7, NSlot}, j \in {1, 2, 3, 7, NSlot}, k \in OtherKinds, n \in {<<"a", "a">>, <<"a", "b">>}}
-  \cup {TwoDefs(1, Piece(NL("   revision ") \o S2C(RevDates[a]) \o NL(";~")), 1, Piece(NL("   revision ") \o S2C(RevDates[b]) \o NL(" { description d; }~")))
+  UNION {Both(TwoDefs(i, DefOf(k[1], n[1]), j, DefOf(k[2], n[2])), i + 3 * j + Len(k[1]) + Len(n[2])) : i \in 1..NSlot, j \in 1..NSlot, k \in ScopeKinds, n \in NamePairs}
+  \cup UNION {Both(TwoDefs(i, DefOf(k[1], n[1]), j, DefOf(k[2], n[2])), i + j + Len(k[1])) : i \in {1, 2, 3, 7, NSlot}, j \in {1, 2, 3, 7, NSlot}, k \in OtherKinds, n \in {<<"a", "a">>, <<"a", "b">>}}
+  \cup UNION {Both(TwoDefs(1, Piece(NL("   revision ") \o S2C(RevDates[a]) \o NL(";~")), 1, Piece(NL("   revision ") \o S2C(RevDates[b]) \o NL(" { description d; }~"))), a + 3 * b)
          : a \in 1..3, b \in 1..3}
+\* chunk 800: "leaves nothing running" after the parser has given up early: the lexer still has the rest of the text before it,
+\* and the rest is made of tokens that cover few or no bytes - empty quoted strings (Quote, an empty String, Quote: three items
+\* on two bytes), concatenations of them, empty statements, braces - in runs of 1 to 400, so that the items still to come
+\* outnumber the bytes of the text many times.  Heads: nothing, texts whose error comes with the third word, inside a module,
+\* inside a block, after a complete statement; and heads without an error (then the run itself decides).  Only the geometry is
+\* computed; what is required is what C07 requires of every text - the goroutine dump after the return decides.
+RunHeads == << << >>, S2C("a b c "), S2C("leaf "), S2C("} "), S2C("module m { description "), S2C("module m { namespace \"urn:m\"; prefix m; description \"x\" "),
+               S2C("a { b c d "), S2C("a \"x\" \"y\" "), S2C("module m {") \o <<LF>> \o S2C("  x:y z /* c */ w") \o <<LF>>, S2C("m:e ") >>
+RunUnits == << <<DQ, DQ>>, <<SQ, SQ>>, <<DQ, DQ, SP>>, <<DQ, DQ, PLUS>>, <<SQ, SQ, SP, PLUS, SP>>, <<SQ, SQ, PLUS, DQ, DQ>>, <<SEMI>>, <<LBR>>, <<RBR>>, <<LBR, RBR>>,
+               <<LBR, SEMI, RBR>>, <<PLUS>>, S2C("a;"), <<DQ, DQ, SEMI>>, S2C("x ") \o <<DQ, DQ, SEMI>>, <<DQ, DQ, LF>>, <<SQ, SQ, SEMI, LF>>, <<DQ, DQ, LBR>> >>
+RunCounts == IF AliasWide THEN (1..64) \cup {8 * k : k \in 9..50} \cup {65, 127, 129, 255, 257, 399}
+             ELSE (1..12) \cup {16, 24, 32, 33, 48, 64, 65, 96, 100, 128, 129, 200, 256, 257, 300, 399, 400}
+RECURSIVE Rep(_, _)
+Rep(u, n) == IF n = 0 THEN << >> ELSE IF n = 1 THEN u ELSE LET h == Rep(u, n \div 2) IN h \o h \o (IF n % 2 = 1 THEN u ELSE << >>)
+RunTails == << << >>, <<SEMI>>, S2C(" }"), <<LF>> >>
+RunCases(u_) == {ViaAny(PlainLight(RunHeads[h] \o Rep(RunUnits[u], n) \o RunTails[1 + ((h + u + n) % Len(RunTails))]), h + u + n)
+                 : h \in 1..Len(RunHeads), u \in 1..Len(RunUnits), n \in RunCounts}
 \* chunk 200: given texts (repository YANG cut at random points), file InFile: records [text]
 Given(u_) == ndJsonDeserialize(InFile)
 
+\* chunks 100 + 150 and 200 + 250 are written by one chunk each (the sampled texts are drawn once): every text through parse.Parse and
+\* once more through one of the other entries
+Twice(v, k) == {v, ViaOther(v, k)}
 Cases == IF chunk = 0 THEN {Vec(<< >>, 1)}
-         ELSE IF chunk = 100 THEN LET R == RandTexts(0) IN {Vec(R[k], 1) : k \in 1..NRand}
-         ELSE IF chunk = 200 THEN {Vec(Given(0)[k].text, 1) : k \in 1..Len(Given(0))}
+         ELSE IF chunk = 100 THEN LET R == RandTexts(0) IN UNION {Twice(Vec(R[k], 1), k) : k \in 1..NRand}
+         ELSE IF chunk = 200 THEN UNION {Twice(Vec(Given(0)[k].text, 1), k) : k \in 1..Len(Given(0))}
+         ELSE IF chunk = 800 THEN RunCases(0)
          ELSE IF chunk = 300 THEN {LightVec(CatText(i)) : i \in 1..NCatTexts}
          ELSE IF chunk = 400 THEN AbsurdCases(0)
          ELSE IF chunk = 500 THEN CrossCases(0)
          ELSE IF chunk = 700 THEN {PlainLight(t) : t \in BomTexts(0)}
          ELSE IF chunk > 600 /\ chunk <= 600 + NAlias THEN {Vec(t, 1) : t \in AliasTexts(chunk - 600)}
          ELSE {Vec(t, v) : t \in TextsFrom(Alpha[chunk]), v \in Variants}
-GInit == chunk \in (0..Len(Alpha)) \cup {100, 200, 300, 400, 500, 700} \cup (601..(600 + NAlias)) /\ done = FALSE
+GInit == chunk \in (0..Len(Alpha)) \cup {100, 200, 300, 400, 500, 700, 800} \cup (601..(600 + NAlias)) /\ done = FALSE
 GNext == /\ ~done /\ done' = TRUE /\ UNCHANGED chunk
          /\ ndJsonSerialize("vec_" \o ToString(chunk) \o ".ndjson", SetToSeq(Cases))
 =============================================================================
